@@ -1,19 +1,37 @@
 package main
 
 import (
+	"encoding/json"
 	"fmt"
+	"io"
+	"math"
 	"reflect"
+	"sort"
+	"strconv"
+	"strings"
+	"sync"
 
 	"verifgen/hx"
 )
+
+// the correspondence glue the cases are evaluated with.  The v2 WriteMap buffers the entries of an object and emits them in key
+// order, so two encodings of one value must be the same BYTES; the root WriteMap streams the entries in the order the generated
+// code supplies them (Go map order for maps), so there two encodings are compared modulo the order of object members.
+const c01Corr = "CodecCorr"
+
+var c01MemberOrderFixed = strings.HasPrefix(c01Corr, "Codec")
 
 // C01: round trip of valid values through the five wire formats
 func runC01(cfg *hx.Config) {
 	rep := hx.NewReport("schema family (named types through the REAL generator) x seeded values (sizes 0-3 per container, depth <= 3, byte pool weighted " +
 		"towards every ROR2/JSON/URL metacharacter, control bytes, 0x80-0xFF, multi-byte UTF-8, U+2028, empty strings/containers, int extremes, float " +
-		"specials and both sides of the 1e21/1e-7 switches) plus a single-byte sweep (each of the 256 bytes as string value, map key, bytes value) x 5 wire formats. " +
+		"specials and both sides of the 1e21/1e-7 switches) plus a single-byte sweep (each of the 256 bytes as string value, map key, bytes value) and a float sweep (every " +
+		"float32 / float64 of the boundary pools: float32 values whose shortest float32 text differs from their float64 text, 2^24 neighbours, MaxFloat32, subnormals, " +
+		"double-rounding witnesses; compared bit for bit) x 5 wire formats; then HISTORIES in the same process: failed encodes of invalid values (union with no / two members, " +
+		"unknown enum constants) and failed decodes of truncated documents, each followed by the round trip of earlier values whose output must not have changed; then the same " +
+		"values encoded concurrently from several goroutines, with and without interleaved failing encodes. " +
 		"non-trivial = the value holds a string/key/bytes with a byte outside [A-Za-z0-9_] or a float; distinct by (type, value)")
-	sh := hx.NewShards(cfg.Out, header(), "CodecCorr", 100)
+	sh := hx.NewShards(cfg.Out, header(), c01Corr, 100)
 	r := hx.NewRand(cfg.Seed)
 	n := 100
 	if cfg.Thorough() {
@@ -41,16 +59,347 @@ func runC01(cfg *hx.Config) {
 		u := &Val{K: "union", Fields: []*Val{nil, {K: "str", S: s}, nil, nil, nil}}
 		runRoundTrip("U", u, "sweep", rep, sh)
 	}
+	// float sweep: every float32 / float64 of the boundary pools once, bit-exact through every format
+	c01CheckFloatPools()
+	for i := 0; i < len(f32s) || i < len(f64s); i++ {
+		f32, f64 := f32s[i%len(f32s)], f64s[i%len(f64s)]
+		prims := &Val{K: "rec", Fields: []*Val{{K: "int", Z: 1}, {K: "long", Z: 2}, {K: "float", Bits: uint64(math.Float32bits(f32))}, {K: "double", Bits: math.Float64bits(f64)},
+			{K: "bool", B: false}, {K: "str", S: "f"}, {K: "bytes", S: ""}}}
+		runRoundTrip("Prims", prims, "float-sweep", rep, sh)
+		rep.Count("float-sweep")
+	}
+	runHistories(cfg, r, rep, sh)
+	runConcurrent(cfg, r, rep)
 	sh.Close()
 	rep.Shards = sh.Files
 	rep.Write(cfg.Out)
 }
 
+// ---- histories: encode and decode must be functions of their argument alone
+
+// the first round trip of a value in this process (before any failed operation): what every writer produced
+type c01Ent struct {
+	tname string
+	v     *Val
+	out   [5]string
+	cls   [5]string
+}
+
+var c01Seen []*c01Ent
+
+// types that can hold a constraint violation (C11): encoding such a value FAILS, possibly after sibling entries were written
+var c01FailTypes = []string{"WithU", "Big", "U", "UN", "Opts", "DOuter", "Color"}
+
+func c01Invalid(r *hx.Rand) (string, *Val) {
+	for try := 0; try < 40; try++ {
+		tname := c01FailTypes[r.Intn(len(c01FailTypes))]
+		if _, ok := registry[tname]; !ok {
+			continue
+		}
+		v := schema.gen(r, ref(tname), genOpts{utf8: true, invalid: true, depth: 1 + r.Intn(3)})
+		if !schema.valid(ref(tname), v) {
+			return tname, v
+		}
+	}
+	return "", nil
+}
+
+// a failing operation on an unrelated value: its outcome is not part of the claim, it only precedes what is checked
+func c01FailingStep(r *hx.Rand, rep *hx.Report) (histStep, bool) {
+	if r.Chance(25) && len(c01Seen) > 0 {
+		// a failed decode: a truncated document
+		e := c01Seen[r.Intn(len(c01Seen))]
+		f := r.Intn(len(formats))
+		if e.cls[f] == "ok" && len(e.out[f]) > 1 {
+			data := e.out[f][:1+r.Intn(len(e.out[f])-1)]
+			oc, _ := decodeVal(e.tname, f, data, nil, 0)
+			rep.Count("history-step=dec-" + oc.Class)
+			return histStep{Op: "dec", Type: e.tname, Format: formats[f], Data: data, Outcome: oc}, true
+		}
+	}
+	tname, v := c01Invalid(r)
+	if v == nil {
+		return histStep{}, false
+	}
+	ptr := reflect.New(registry[tname])
+	schema.toGo(ref(tname), v, ptr.Elem())
+	f := r.Intn(len(formats))
+	_, oc := encode(ptr, f, nil)
+	rep.Count("history-step=enc-" + oc.Class)
+	return histStep{Op: "enc", Type: tname, Format: formats[f], Value: v.fixJSON(), Outcome: oc}, true
+}
+
+func runHistories(cfg *hx.Config, r *hx.Rand, rep *hx.Report, sh *hx.Shards) {
+	n := 150
+	if cfg.Thorough() {
+		n = 3000
+	}
+	if len(c01Seen) == 0 {
+		return
+	}
+	firsts := append([]*c01Ent{}, c01Seen...)
+	for h := 0; h < n; h++ {
+		var hist []histStep
+		for k := 0; k < 1+r.Intn(3); k++ {
+			if st, ok := c01FailingStep(r, rep); ok {
+				hist = append(hist, st)
+			}
+		}
+		if len(hist) == 0 {
+			continue
+		}
+		for k := 0; k < 2; k++ {
+			e := firsts[r.Intn(len(firsts))]
+			// every 10th history is also a case for the model (the bytes after the failed operation against the model encoder)
+			var shx *hx.Shards
+			if h%10 == 0 {
+				shx = sh
+			}
+			runRoundTripAfter(e, hist, rep, shx)
+		}
+		rep.Count("histories")
+	}
+}
+
+// the same values, encoded from several goroutines at once (fresh Go values per goroutine; some goroutines interleave failing
+// encodes): every output must be what the sequential run produced
+func runConcurrent(cfg *hx.Config, r *hx.Rand, rep *hx.Report) {
+	const G = 8
+	per := 60
+	if cfg.Thorough() {
+		per = 1500
+	}
+	if len(c01Seen) == 0 {
+		return
+	}
+	type item struct {
+		e     *c01Ent // a seen value, or
+		tname string  // an invalid one
+		v     *Val
+	}
+	type diff struct {
+		g, i, f int
+		out     string
+		cls     string
+	}
+	work := make([][]item, G)
+	for g := range work {
+		for i := 0; i < per; i++ {
+			if g%2 == 1 && i%3 == 0 {
+				if tname, v := c01Invalid(r); v != nil {
+					work[g] = append(work[g], item{tname: tname, v: v})
+					continue
+				}
+			}
+			// neighbouring goroutines share most of their values
+			work[g] = append(work[g], item{e: c01Seen[(r.Intn(64)+i*7)%len(c01Seen)]})
+		}
+	}
+	var mu sync.Mutex
+	var diffs []diff
+	var wg sync.WaitGroup
+	start := make(chan struct{})
+	for g := 0; g < G; g++ {
+		wg.Add(1)
+		go func(g int) {
+			defer wg.Done()
+			<-start
+			for i, it := range work[g] {
+				if it.e == nil {
+					ptr := reflect.New(registry[it.tname])
+					schema.toGo(ref(it.tname), it.v, ptr.Elem())
+					encode(ptr, (g+i)%len(formats), nil)
+					continue
+				}
+				ptr := reflect.New(registry[it.e.tname])
+				schema.toGo(ref(it.e.tname), it.e.v, ptr.Elem())
+				for f := range formats {
+					out, oc := encode(ptr, f, nil)
+					if oc.Class != it.e.cls[f] || (oc.Class == "ok" && !sameWire(f, out, it.e.out[f])) {
+						mu.Lock()
+						diffs = append(diffs, diff{g, i, f, out, oc.Class})
+						mu.Unlock()
+					}
+				}
+			}
+		}(g)
+	}
+	close(start)
+	wg.Wait()
+	sort.Slice(diffs, func(a, b int) bool {
+		if diffs[a].g != diffs[b].g {
+			return diffs[a].g < diffs[b].g
+		}
+		if diffs[a].i != diffs[b].i {
+			return diffs[a].i < diffs[b].i
+		}
+		return diffs[a].f < diffs[b].f
+	})
+	rep.Evaluations += G * per
+	rep.CountN("concurrent-encodes", G*per)
+	for _, d := range diffs {
+		e := work[d.g][d.i].e
+		var others []histStep
+		for _, it := range work[d.g|1] { // an odd goroutine: those interleave the failing encodes
+			if it.e == nil && len(others) < 3 {
+				others = append(others, histStep{Op: "enc", Type: it.tname, Format: "any", Value: it.v.fixJSON(), Outcome: outcome{Class: "err"}})
+			}
+		}
+		cd := caseDesc{Mode: "c01", Type: e.tname, Note: fmt.Sprintf("encoded concurrently by %d goroutines (every second one interleaves failing encodes of invalid values such as those listed under history)", G),
+			History: others,
+			Ops: []opDesc{{Op: "enc", Format: formats[d.f], Value: e.v.fixJSON(), Data: d.out, Outcome: outcome{Class: d.cls, Text: "sequential output: " + strconv.Quote(e.out[d.f])}}}}
+		rep.Fail("history:concurrent-encode-differs:"+wireFamily(d.f), "a value encoded while other goroutines encode does not produce the output of the sequential run",
+			"v2/restlicodec "+formats[d.f], cd, strconv.Quote(d.out))
+	}
+}
+
+func wireFamily(f int) string {
+	if f >= 2 {
+		return "ror2-" + formats[f]
+	}
+	return "json"
+}
+
+// are two outputs of writer f the same document (v2: the same bytes; root: modulo the order of object members)
+func sameWire(f int, a, b string) bool {
+	if a == b {
+		return true
+	}
+	if c01MemberOrderFixed {
+		return false
+	}
+	if f <= 1 {
+		return canonJSON(a) == canonJSON(b)
+	}
+	return canonROR2(a) == canonROR2(b)
+}
+
+func canonJSON(s string) string {
+	dec := json.NewDecoder(strings.NewReader(s))
+	dec.UseNumber()
+	var x interface{}
+	if dec.Decode(&x) != nil {
+		return "!raw:" + s
+	}
+	if _, err := dec.Token(); err != io.EOF {
+		return "!raw:" + s
+	}
+	b, err := json.Marshal(x) // object members in key order, numbers as written
+	if err != nil {
+		return "!raw:" + s
+	}
+	return string(b)
+}
+
+// ROR2 text with the entries of every (k:v,...) in key order; the raw text when it does not parse
+func canonROR2(s string) string {
+	i := 0
+	var value func() (string, bool)
+	value = func() (string, bool) {
+		switch {
+		case strings.HasPrefix(s[i:], "List("):
+			i += 5
+			var items []string
+			for i < len(s) && s[i] != ')' {
+				x, ok := value()
+				if !ok {
+					return "", false
+				}
+				items = append(items, x)
+				if i < len(s) && s[i] == ',' {
+					i++
+				}
+			}
+			if i >= len(s) {
+				return "", false
+			}
+			i++
+			return "List(" + strings.Join(items, ",") + ")", true
+		case i < len(s) && s[i] == '(':
+			i++
+			type ent struct{ k, v string }
+			var ents []ent
+			for i < len(s) && s[i] != ')' {
+				j := strings.IndexByte(s[i:], ':')
+				if j < 0 {
+					return "", false
+				}
+				k := s[i : i+j]
+				i += j + 1
+				x, ok := value()
+				if !ok {
+					return "", false
+				}
+				ents = append(ents, ent{k, x})
+				if i < len(s) && s[i] == ',' {
+					i++
+				}
+			}
+			if i >= len(s) {
+				return "", false
+			}
+			i++
+			sort.SliceStable(ents, func(a, b int) bool { return ents[a].k < ents[b].k })
+			parts := make([]string, len(ents))
+			for n, e := range ents {
+				parts[n] = e.k + ":" + e.v
+			}
+			return "(" + strings.Join(parts, ",") + ")", true
+		}
+		j := i
+		for i < len(s) && s[i] != ',' && s[i] != ')' && s[i] != '(' {
+			i++
+		}
+		return s[j:i], true
+	}
+	out, ok := value()
+	if !ok || i != len(s) {
+		return "!raw:" + s
+	}
+	return out
+}
+
+// the boundary pools must really contain the classes the rule names (a constant that no longer belongs to its class is a
+// mistake of this driver, not of the implementation)
+func c01CheckFloatPools() {
+	differ, witness := 0, 0
+	for _, f := range f32s {
+		f64 := float64(f)
+		if f64 != f64 || math.IsInf(f64, 0) {
+			continue
+		}
+		short := strconv.FormatFloat(f64, 'g', -1, 32)
+		if short != strconv.FormatFloat(f64, 'g', -1, 64) {
+			differ++
+		}
+		if p, err := strconv.ParseFloat(short, 64); err == nil && float32(p) != f {
+			witness++
+		}
+	}
+	if differ < 8 || witness < 2 {
+		panic(fmt.Sprintf("c01: float32 pool lost its classes (shortest32 != shortest64: %d, double-rounding witnesses: %d)", differ, witness))
+	}
+}
+
 func runRoundTrip(tname string, v *Val, note string, rep *hx.Report, sh *hx.Shards) {
+	e := &c01Ent{tname: tname, v: v}
+	c01Seen = append(c01Seen, e)
+	roundTrip(e, note, nil, true, rep, sh)
+}
+
+// the round trip of an earlier value after the operations of hist: the outputs must be those of the first run, and the
+// round-trip property must hold as it did (sh == nil: not a case for the model)
+func runRoundTripAfter(e *c01Ent, hist []histStep, rep *hx.Report, sh *hx.Shards) {
+	roundTrip(e, "after-failed-operations", hist, false, rep, sh)
+}
+
+func roundTrip(e *c01Ent, note string, hist []histStep, first bool, rep *hx.Report, sh *hx.Shards) {
+	tname, v := e.tname, e.v
 	T := registry[tname]
 	t := ref(tname)
 	c := newCase("c01", tname, schema.coqTy(t))
 	c.desc.Note = note
+	c.desc.History = hist
 	ptr := reflect.New(T)
 	schema.toGo(t, v, ptr.Elem())
 	utf8ok := allValidUtf8(v)
@@ -59,6 +408,14 @@ func runRoundTrip(tname string, v *Val, note string, rep *hx.Report, sh *hx.Shar
 		out, oc := encode(ptr, f, nil)
 		c.enc(f, v, oc, out)
 		site := "v2/restlicodec " + formats[f]
+		if first {
+			e.out[f], e.cls[f] = out, oc.Class
+		} else if oc.Class != e.cls[f] || (oc.Class == "ok" && !sameWire(f, out, e.out[f])) {
+			one := oneOp(c, tname, f, v, out, oc, nil)
+			one.Ops[0].Op = "enc"
+			rep.Fail("history:encode-differs-after-failed-operation:"+wireFamily(f), "the encoder's output for a value changed after FAILED operations on unrelated values in the same process "+
+				"(encode is not a function of the value alone)", site, one, map[string]string{"first_output": strconv.Quote(e.out[f]), "first_outcome": e.cls[f], "later_output": strconv.Quote(out), "later_outcome": oc.Class})
+		}
 		if oc.Class == "ok" {
 			doc, decodedVal := decodeVal(tname, f, out, nil, 0)
 			c.dec(f, out, doc, decodedVal)
@@ -92,18 +449,24 @@ func runRoundTrip(tname string, v *Val, note string, rep *hx.Report, sh *hx.Shar
 		}
 	}
 	rep.Evaluations++
-	rep.Distinct(tname+valKey(v), nontrivial(v))
-	rep.Count("type=" + tname)
-	rep.Count(fmt.Sprintf("utf8=%v", utf8ok))
-	rep.Count(fmt.Sprintf("floats=%d", minInt(len(c.fl)/5, 3)))
-	if note == "" && nontrivial(v) {
-		rep.Sample(c.describe())
+	if first {
+		rep.Distinct(tname+valKey(v), nontrivial(v))
+		rep.Count("type=" + tname)
+		rep.Count(fmt.Sprintf("utf8=%v", utf8ok))
+		rep.Count(fmt.Sprintf("floats=%d", minInt(len(c.fl)/5, 3)))
+		if note == "" && nontrivial(v) {
+			rep.Sample(c.describe())
+		}
+	} else {
+		rep.Count("after-failed-operations")
 	}
-	sh.Add(c.coq(), c.describe())
+	if sh != nil {
+		sh.Add(c.coq(), c.describe())
+	}
 }
 
 func oneOp(c *cb, tname string, f int, v *Val, data string, oc outcome, decoded *Val) caseDesc {
-	d := caseDesc{Mode: c.desc.Mode, Type: tname, Excl: c.desc.Excl, Ign: c.desc.Ign, Note: c.desc.Note}
+	d := caseDesc{Mode: c.desc.Mode, Type: tname, Excl: c.desc.Excl, Ign: c.desc.Ign, Note: c.desc.Note, History: c.desc.History}
 	d.Ops = []opDesc{{Op: "roundtrip", Format: formats[f], Value: v.fixJSON(), Data: data, Outcome: oc, Decoded: decoded.fixJSON()}}
 	return d
 }
